@@ -17,7 +17,7 @@ const ruleC13 = "C01 paths (mostly without functions; with functions for the Set
 
 func drawC13(rt *rapid.T) *Case {
 	funcs := gen.Uniform(rt, "withfuncs", 5) == 0
-	g := gen.NewG(rt, gen.PathOpts{Funcs: funcs, RootOmit: true, FuncPct: 40})
+	g := gen.NewG(rt, gen.PathOpts{Funcs: funcs, RootOmit: true, FuncPct: 40, LongPaths: true})
 	p := g.Path()
 	r := gen.Render(p, gen.Canon)
 	d := gen.DistinctLeaves(g.Doc(p))
